@@ -82,7 +82,7 @@ func (c *Ctx) CacheCellsWrittenByOwners(ob *core.Obligation, r *Roles) {
 		}
 		// the function that reconciles and applies, and a helper it hands postings to
 		for _, ci := range core.Calls(fn) {
-			if sc := ci.Common().StaticCallee(); sc != nil && returnsPostings(sc) && sc != fn && buildsPostings(sc, r) {
+			if sc := ci.Common().StaticCallee(); sc != nil && sc != fn && c.IsReconciler(sc, r) {
 				owners[fn] = true
 				for _, c2 := range core.Calls(fn) {
 					if h := c2.Common().StaticCallee(); h != nil && relOfFn(h) == relOfFn(fn) {
